@@ -518,7 +518,7 @@ func removeSegmetas(segkeysToRemove map[string]struct{}, indexName string) map[s
 	preservedSmEntries := make([]*structs.SegMeta, 0)
 
 	for segkey := range segkeysToRemove {
-		baseDir, err := utils.GetSegBaseDirFromFilename(segkey)
+		baseDir, err := utils.GetSegBaseDirFromSegKey(segkey)
 		if err != nil {
 			log.Errorf("removeSegmetas: Cannot get segbaseDir from segkey=%v; err=%v", segkey, err)
 			continue
